@@ -61,10 +61,8 @@ def corpus_cases(r):
         magic = data[0] + 256 * data[1]
         if magic in (62135, 21150, 21280):   # Dropbox-encrypted / Graal (JVM) files: bodies are not decoded by xdis
             continue
-        if data[0:1] == b"0":
-            # PyPy 3.2 marshals variable names as 's' byte strings, which xdis turns into text (co_varnames is read with
-            # bytes_for_s=False); what PyPy 3.2 itself loads is not decidable here (no such interpreter) and the model keeps bytes.
-            continue
+        # PyPy 3.2 marshals names as 's' byte strings, which xdis hands out as text: the model's result goes through the pypy32_fix adapter
+        # (Model/UnmarshalObs.v) for these files; what PyPy 3.2 itself loads is not decidable here (no such interpreter)
         hl = header_len(data)
         if hl is None:
             continue
@@ -72,8 +70,23 @@ def corpus_cases(r):
             magic = 3187
         payload = list(data[hl:])
         old = magic in (39170, 39171, 11913, 5892, 20121, 50428, 50823, 60202, 60717, 62011, 62021, 62041, 62051, 62061)
-        cases.append({"magic": magic, "bytes": payload, "file": os.path.relpath(f, C.REPO), "kind": "corpus", "ft": float_table(payload) if old else []})
+        cases.append({"magic": magic, "bytes": payload, "file": os.path.relpath(f, C.REPO), "kind": "corpus", "ft": float_table(payload) if old else [],
+                      "pypy32": data[0:1] == b"0"})
     return cases
+
+
+def pypy32_synthetic():
+    """a PyPy 3.2 code object (3.2 layout; names, file name and name as 's' strings) whose CONSTANTS hold byte strings - directly, in a
+    nested tuple and in a frozenset - beside text: the name convention must not leak into the constants"""
+    import struct
+    w = lambda n: list(struct.pack("<i", n))
+    s_ = lambda b: [ord("s")] + w(len(b)) + list(b)
+    u_ = lambda t: [ord("u")] + w(len(t.encode())) + list(t.encode())
+    tup = lambda items: [ord("(")] + w(len(items)) + [x for it in items for x in it]
+    consts = tup([[ord("N")], s_(b"GET"), u_("text"), tup([s_(b"in"), tup([s_(b"ner")])]), [ord(">")] + w(2) + s_(b"m1") + s_(b"m2"), s_(b"\xff\xfe")])
+    body = ([ord("c")] + w(0) + w(0) + w(0) + w(2) + w(64) + s_(b"d\x00\x00S") + consts + tup([s_(b"nm"), s_(b"other")]) + tup([s_(b"v")]) + tup([]) + tup([])
+            + s_(b"file.py") + s_(b"<module>") + w(1) + s_(b"\x00\x01"))
+    return {"magic": 3187, "bytes": body, "file": "synthetic:pypy3.2-bytes-constants", "kind": "synthetic-pypy32", "ft": [], "pypy32": True}
 
 
 def oracle_cases(r):
@@ -100,12 +113,13 @@ def run(r):
         r.violation({"broken": broken or "proof obligation", "theorem_or_tie": "Props/C01.v", "log": "" if broken else r.build_failure_excerpt()},
                     found_input=False, name="C01-obligation.json")
     try:
-        cases = corpus_cases(r)
+        cases = corpus_cases(r) + [pypy32_synthetic()]
         oc, spec = oracle_cases(r)
         cases += oc
         for c in cases:
             r.count("source:" + c["kind"])
-        C.correspond(r, "loadcode", HEADER, "unmarshal", cases, lambda c: f"obs_load (xdis_cfg {c['magic']}) {MG.ft_lit(c.get('ft', []))} {C.blist(c['bytes'])}", modules=MODS,
+        C.correspond(r, "loadcode", HEADER, "unmarshal", cases,
+                     lambda c: f"{'obs_load_pypy32' if c.get('pypy32') else 'obs_load'} (xdis_cfg {c['magic']}) {MG.ft_lit(c.get('ft', []))} {C.blist(c['bytes'])}", modules=MODS,
                      describe=describe, shards=8, chunk=25, nontrivial=lambda c, o: isinstance(o, list) and o[:1] == [0] and o.count(16) > 1)
         # the spec against what each interpreter's own marshal.loads returned for its own payloads
         lits = [f"(match load (cpy_cfg {magic}) {C.blist(x['payload'])} with Ok (v, st) => zlen (inp st) :: obs_pv [] v | Err e => [1; err_code e] end, {C.zlist(x['obs'])})"
